@@ -90,8 +90,14 @@ func RunClone(s *Scen, r *vk.Rand, a, b int, bin, base string) {
 	// sampler at the clone replica: mode RW implies clone status completed
 	stop := make(chan struct{})
 	var wg sync.WaitGroup
-	var bad string
-	var samples, inProgress int64
+	var bad, early string
+	var samples, inProgress, completedSamples int64
+	wantChain := 0
+	for i, n := range si.Chain {
+		if n == disk {
+			wantChain = 1 + len(si.Chain) - i
+		}
+	}
 	wg.Add(1)
 	go func() {
 		defer wg.Done()
@@ -109,8 +115,22 @@ func RunClone(s *Scen, r *vk.Rand, a, b int, bin, base string) {
 				if ri.ReplicaMode == "RW" && ri.CloneStatus != "completed" && bad == "" {
 					bad = fmt.Sprintf("clone replica reports mode RW while its clone status is %q", ri.CloneStatus)
 				}
+				// "completed" is reported only when everything is in place: not rebuilding any more, the whole chain of S
+				// loaded, the revision counter recorded for S
+				if ri.CloneStatus == "completed" && early == "" {
+					completedSamples++
+					got, _ := strconv.ParseInt(ri.RevisionCounter, 10, 64)
+					switch {
+					case ri.Rebuilding || ri.State == "rebuilding":
+						early = fmt.Sprintf("state=%s rebuilding=%v", ri.State, ri.Rebuilding)
+					case len(ri.Chain) != wantChain:
+						early = fmt.Sprintf("its chain is %v (the chain of %s at the source has %d members below the head)", ri.Chain, sName, wantChain-1)
+					case got != wantRev:
+						early = fmt.Sprintf("its revision counter is %d (recorded for %s: %d)", got, sName, wantRev)
+					}
+				}
 			}
-			time.Sleep(15 * time.Millisecond)
+			time.Sleep(3 * time.Millisecond)
 		}
 	}()
 	var ws *writers
@@ -182,8 +202,13 @@ func RunClone(s *Scen, r *vk.Rand, a, b int, bin, base string) {
 	wg.Wait()
 	s.Res.Count("clone_status_samples", samples)
 	s.Res.Count("clone_status_samples_in_progress", inProgress)
+	s.Res.Count("clone_status_samples_completed", completedSamples)
 	if bad != "" {
 		s.Fail([]string{"C19"}, "clone-RW-before-completed", bad)
+		return
+	}
+	if early != "" && kind != "missing-snapshot" {
+		s.Fail([]string{"C19"}, "clone-status-completed-too-early", "the clone replica reported clonestatus=completed while "+early)
 		return
 	}
 	if kind == "missing-snapshot" {
@@ -282,6 +307,11 @@ func RunWorker(prop string, seed uint64, worker, cases int, scratch, out string,
 		b := (c*2 + r.Intn(100)*2) % 240
 		if prop == "C19" {
 			RunClone(s, r, a, b, bin, base)
+		} else if extra["scen"] == "snaplife" {
+			a = 100 + (propNo*3+worker+50)%100
+			merges := 1
+			fmt.Sscanf(extra["merges"], "%d", &merges)
+			RunSnapLife(s, r, a, b, bin, base, merges, extra["restart"] == "1")
 		} else {
 			cycles := 1
 			fmt.Sscanf(extra["cycles"], "%d", &cycles)
